@@ -139,6 +139,7 @@ def gen_lg_case(rng, focus="route", malformed=0.1, unique_names=True):
     flt = 1 if rng.random() < 0.2 else 0
     probes = rng.sample([t for t in TARGETS], 5)
     ops = []
+    last_mods = spec.split("/")[0]
     nops = rng.randint(3, 10)
     for _ in range(nops):
         r = rng.random()
@@ -146,6 +147,10 @@ def gen_lg_case(rng, focus="route", malformed=0.1, unique_names=True):
         if focus == "handle" and r < 0.5:
             k = rng.random()
             s = spec_string(rng, 0.25 if rng.random() < 0.5 else 0.0, unique=unique_names)
+            if last_mods is not None and rng.random() < 0.35:
+                # the same module filters as before, only the text filter is added, changed or removed
+                s = last_mods + rng.choice(["", "/" + rng.choice(PATTERNS_OK), "/" + rng.choice(PATTERNS_OK)])
+            last_mods = s.split("/")[0]
             if k < 0.2:
                 ops.append("HS:" + hx(s))
             elif k < 0.4:
@@ -157,6 +162,9 @@ def gen_lg_case(rng, focus="route", malformed=0.1, unique_names=True):
             else:
                 ops.append("HO")
             ops += ["G", "GR"]
+            # the text filter is part of the specification: a record that contains the pattern and one that does not
+            for m in ("needle in haystack", "hello world", "xyz"):
+                ops.append("L:%d:%s:~:%s" % (rng.randint(1, 3), hx(rng.choice(TARGETS)), hx(m)))
         elif r < 0.1:
             ops.append(rng.choice(["DE:%d", "DO:%d"]) % rng.randint(0, 6))
         elif r < 0.2:
